@@ -173,6 +173,110 @@ type cbMon struct {
 	// function" may do anything it likes; the outer stream must not depend on what it does meanwhile)
 	busy    bool
 	busyErr string
+	// owned: CALLBACK-OWNED MEMORY. The key store answers from its own long-lived memory: unwrap returns,
+	// for a given wrapped key, always the SAME slice - a sub-slice of a key table with guard
+	// bytes and neighbouring keys around it (so the slice also has spare capacity reaching into them) - and
+	// wrap returns a slice of a long-lived buffer. After every Encrypt/Decrypt verifyOwned checks that none
+	// of that memory changed: a caller's key table is not kit's to write to.
+	owned     bool
+	table     []byte         // [guard 16][key 32][guard 16][key 32]...[guard 16]
+	tableWant []byte         // what the table must look like
+	slots     map[string]int // (algorithm, wrapped key) -> offset of the key in table
+	wrapBuf   []byte         // long-lived output buffer of wrap
+	wrapWant  []byte
+	// the argument slices kit handed to the callbacks, kept to look at them later (observed only)
+	argKeys []argSlice
+}
+
+type argSlice struct {
+	what string
+	kept []byte // the slice as received
+	was  []byte // its contents at the time of the call
+}
+
+const (
+	ownedGuard = 16
+	ownedSlots = 6
+)
+
+func (m *cbMon) initOwned() {
+	m.table = bytes.Repeat([]byte{0xA5}, ownedGuard+ownedSlots*(32+ownedGuard))
+	// neighbouring keys already in the table
+	for i := 0; i < ownedSlots; i++ {
+		off := ownedGuard + i*(32+ownedGuard)
+		for j := 0; j < 32; j++ {
+			m.table[off+j] = byte(0x30 + i*7 + j)
+		}
+	}
+	m.tableWant = append([]byte(nil), m.table...)
+	m.slots = map[string]int{}
+	m.wrapBuf = bytes.Repeat([]byte{0xC7}, 1024)
+	m.wrapWant = append([]byte(nil), m.wrapBuf...)
+}
+
+// ownedUnwrap answers from the key table (filling a slot on the first request).
+func (m *cbMon) ownedUnwrap(wfk []byte, alg, name string) ([]byte, error) {
+	if !m.v.names[name] {
+		return nil, fmt.Errorf("vault: no key named %q", name)
+	}
+	// every name of the case denotes the same key, so the table is keyed by (algorithm, wrapped key)
+	id := alg + "\x00" + string(wfk)
+	if off, ok := m.slots[id]; ok {
+		rec.Count("callback.owned.unwrap_answered_from_the_same_slice", 1)
+		return m.table[off : off+32], nil
+	}
+	key, err := m.v.unwrap(wfk, alg, name)
+	if err != nil || len(key) != 32 || len(m.slots) >= ownedSlots-2 {
+		return key, err
+	}
+	off := ownedGuard + (1+len(m.slots))*(32+ownedGuard) // slot 0 and the last ones stay "other people's keys"
+	copy(m.table[off:], key)
+	copy(m.tableWant[off:], key)
+	m.slots[id] = off
+	return m.table[off : off+32], nil
+}
+
+// verifyOwned reports a violation if kit wrote to memory that belongs to the callbacks.
+func (m *cbMon) verifyOwned(c *caseCtx, stage string) bool {
+	for _, a := range m.argKeys {
+		if !bytes.Equal(a.kept, a.was) {
+			rec.Count("callback.args."+a.what+"_slice_changed_after_the_call", 1)
+			rec.Observe("the " + a.what + " slice passed to a key callback had other contents when looked at after " + stage + " (not judged: it is kit's memory)")
+		} else {
+			rec.Count("callback.args."+a.what+"_slice_still_intact_later", 1)
+		}
+	}
+	m.argKeys = nil
+	if !m.owned {
+		return true
+	}
+	ok := true
+	if !bytes.Equal(m.table, m.tableWant) {
+		ok = false
+		first := firstDiff(m.table, m.tableWant)
+		sig := "callback/unwrap/returned-key-neighbours-modified"
+		what := "guard bytes / a neighbouring key / the spare capacity of the returned slice"
+		for _, off := range m.slots {
+			if first >= off && first < off+32 {
+				sig, what = "callback/unwrap/returned-key-modified", "the key itself"
+			}
+		}
+		c.viol(sig+"/"+stage, fmt.Sprintf("after %s the key table the unwrap callback answers from has changed at offset %d (%s): now %x, was %x",
+			stage, first, what, m.table[first:min(first+8, len(m.table))], m.tableWant[first:min(first+8, len(m.table))]), nil)
+		// not repaired (a real key store would not notice either): the rest of the case runs on the damaged
+		// table, so the follow-on failures of later decryptions show as well; only new damage is reported again
+		copy(m.tableWant, m.table)
+	}
+	if !bytes.Equal(m.wrapBuf, m.wrapWant) {
+		ok = false
+		first := firstDiff(m.wrapBuf, m.wrapWant)
+		c.viol("callback/wrap/returned-bytes-modified/"+stage, fmt.Sprintf("after %s the long-lived buffer the wrap callback answered from has changed at offset %d", stage, first), nil)
+		copy(m.wrapBuf, m.wrapWant)
+	}
+	if ok {
+		rec.Count("callback.owned.memory_verified_intact", 1)
+	}
+	return ok
 }
 
 var busyKey = bytes.Repeat([]byte{0x5a}, 32)
@@ -224,12 +328,26 @@ func (m *cbMon) wrap(plaintextKey []byte, algorithm, keyName string, nonce []byt
 	m.innerRoundTrip("wrap")
 	out, err := m.v.wrap(plaintextKey, algorithm, keyName)
 	m.wraps = append(m.wraps, wrapCall{keyLen: len(plaintextKey), alg: algorithm, name: keyName, nonce: nonce != nil, out: append([]byte(nil), out...), err: err})
+	m.argKeys = append(m.argKeys, argSlice{"plaintext_key", plaintextKey, append([]byte(nil), plaintextKey...)})
+	if m.owned && err == nil && len(out) <= len(m.wrapBuf)-128 {
+		// answer from the long-lived buffer (guard bytes before and after, spare capacity behind)
+		copy(m.wrapBuf[64:], out)
+		copy(m.wrapWant[64:], out)
+		out = m.wrapBuf[64 : 64+len(out)]
+	}
 	return out, nil, err
 }
 
 func (m *cbMon) unwrap(wrappedKey []byte, algorithm, keyName string, nonce, tag []byte) ([]byte, error) {
 	m.innerRoundTrip("unwrap")
-	out, err := m.v.unwrap(wrappedKey, algorithm, keyName)
+	var out []byte
+	var err error
+	if m.owned {
+		out, err = m.ownedUnwrap(wrappedKey, algorithm, keyName)
+	} else {
+		out, err = m.v.unwrap(wrappedKey, algorithm, keyName)
+	}
+	m.argKeys = append(m.argKeys, argSlice{"wrapped_key", wrappedKey, append([]byte(nil), wrappedKey...)})
 	m.unwraps = append(m.unwraps, unwrapCall{wfk: append([]byte(nil), wrappedKey...), alg: algorithm, name: keyName, nonce: nonce != nil, tag: tag != nil, err: err})
 	return out, err
 }
@@ -661,7 +779,11 @@ func runCase(idx int, s spec) bool {
 	keyName, decName, override := c.names[0], c.names[1], c.names[2]
 	alg := algs[s.Alg]
 	v := newVault(strconv.Itoa(idx), keyName, decName, override)
-	cb := &cbMon{v: v, busy: idx%2 == 1}
+	cb := &cbMon{v: v, busy: idx%2 == 1, owned: idx%3 == 0}
+	if cb.owned {
+		cb.initOwned()
+		rec.Count("callback.owned.cases", 1)
+	}
 	defer func() {
 		if cb.busyErr != "" {
 			c.viol("callback/inner-round-trip", "an independent enc/v1 round trip run inside the key callback failed: "+cb.busyErr, nil)
@@ -706,6 +828,9 @@ func runCase(idx int, s spec) bool {
 	ct, terr, stuck := consume(er, s.ConsE, rng, L+16*(L/65536+1)+hdrGuess)
 	cleanup()
 	observeSource(sr)
+	if !cb.verifyOwned(c, "Encrypt") {
+		return true
+	}
 	if stuck || terr != io.EOF {
 		c.viol("encrypt/stream-error/"+lenClass(L)+"/src="+srcNames[s.SrcE], fmt.Sprintf("the Encrypt stream did not end in a clean EOF: err=%v stuck=%v after %d bytes", terr, stuck, len(ct)), nil)
 		return true
@@ -784,7 +909,7 @@ func runCase(idx int, s spec) bool {
 	rec.Count("kit_decrypts_ref.ok", 1)
 
 	// ---------------- overlap: the same round trip while other operations share kit's buffer pool
-	if L >= 2 && !overlapRoundTrip(c, v, rng, ct, rct, pt, alg.opt) {
+	if L >= 2 && !overlapRoundTrip(c, cb, rng, ct, rct, pt, alg.opt) {
 		return true
 	}
 
@@ -828,6 +953,12 @@ func callDecrypt(in io.Reader, o enc.DecryptOptions) (r io.Reader, err error) {
 // kitDecrypt runs kit.Decrypt over doc with the case's key-name options and
 // checks bytes, terminal error, the unwrap arguments and the missing-key rule.
 func kitDecrypt(c *caseCtx, cb *cbMon, rng *mon.RNG, stage string, doc, pt []byte, srcStyle, consStyle int, wfk []byte, resolvedAlg, manifestName string) bool {
+	ok := kitDecryptInner(c, cb, rng, stage, doc, pt, srcStyle, consStyle, wfk, resolvedAlg, manifestName)
+	cb.verifyOwned(c, "Decrypt("+stage+")")
+	return ok
+}
+
+func kitDecryptInner(c *caseCtx, cb *cbMon, rng *mon.RNG, stage string, doc, pt []byte, srcStyle, consStyle int, wfk []byte, resolvedAlg, manifestName string) bool {
 	s := c.s
 	tagSig := "/" + cipherNames[s.Cipher] + "/" + lenClass(len(pt)) + "/src=" + srcNames[srcStyle] + "/cons=" + consNames[consStyle]
 	extra := func() map[string]any {
@@ -918,9 +1049,16 @@ func kitDecrypt(c *caseCtx, cb *cbMon, rng *mon.RNG, stage string, doc, pt []byt
 // complete Encrypt (checked by the reference implementation) run, then the
 // rest of the first stream is read. All three must be exact. No goroutines
 // other than kit's own; the order of the reads is fixed.
-func overlapRoundTrip(c *caseCtx, v *vault, rng *mon.RNG, ct, rct, pt []byte, algOpt enc.KeyAlgorithm) bool {
+func overlapRoundTrip(c *caseCtx, cb *cbMon, rng *mon.RNG, ct, rct, pt []byte, algOpt enc.KeyAlgorithm) bool {
+	v := cb.v
+	defer cb.verifyOwned(c, "overlapped-round-trip")
 	keyName := c.names[0]
-	unwrap := func(w []byte, a, n string, nonce, tag []byte) ([]byte, error) { return v.unwrap(w, a, n) }
+	unwrap := func(w []byte, a, n string, nonce, tag []byte) ([]byte, error) {
+		if cb.owned {
+			return cb.ownedUnwrap(w, a, n) // the same stored slices as in the decryptions before
+		}
+		return v.unwrap(w, a, n)
+	}
 	opts := enc.DecryptOptions{UnwrapKeyFn: unwrap, KeyName: keyName}
 	k := rng.PickInt(1, 10, 65535, 65536+10)
 	if k >= len(pt) {
@@ -1155,13 +1293,13 @@ func TestCheck(t *testing.T) {
 		"Lengths {0,1,2,15,16,17,k*65536-1,k*65536,k*65536+1 (k=1..4), seeded random <= 400 KiB}; ciphers {nil, AES-GCM, ChaCha20-Poly1305}; the five algorithm ids and the aliases AES, RSA, each wrapped for real by kit's crypto package (AES-KW, AES-CBC no-pad 128/192/256, RSA-OAEP-256 2048 bit); "+
 		"source styles {all-at-once, 1-byte, seeded random chunks, zero-length reads interleaved, last data together with EOF, io.Pipe writer with random write sizes}; consumers {io.ReadAll, 1-byte/61-byte buffer, random sizes, 70000-byte buffer}. "+
 		"The first cases form a seeded covering array of strength 2 over these 13 dimensions (every pair of values of every two dimensions), the thorough tier adds the full product length<=65537 x cipher x algorithm x key-name options and the full product of the four reader/consumer styles at seven boundary lengths, the rest are seeded random vectors. "+
-		"Each case is judged by: the structural monitor on the ciphertext bytes, refenc.Decrypt(kit.Encrypt(pt))==pt, kit.Decrypt(kit.Encrypt(pt))==pt with clean EOF, kit.Decrypt(refenc.Encrypt(pt))==pt, the wrap/unwrap argument monitor and the ErrDecryptionKeyMissing rule; in every odd-numbered case the key callbacks are busy: each call runs an independent small enc/v1 Encrypt/Decrypt round trip before answering (a key store that protects its own records with the scheme), which must neither fail nor disturb the outer stream. distinct = distinct dimension vectors; non-trivial = every case (a real encryption and three real decryptions); case 0 additionally decrypts kit's seven testdata files with refenc. Every case with at least 2 plaintext bytes is followed by an overlapped round trip: kit's ciphertext is opened with Decrypt and read to k bytes (k in {1,10,65535,65546}, or half the plaintext), then a complete Decrypt of the reference ciphertext and a complete Encrypt (checked by refenc) run, then the rest is read; all three must be exact. "+
+		"Each case is judged by: the structural monitor on the ciphertext bytes, refenc.Decrypt(kit.Encrypt(pt))==pt, kit.Decrypt(kit.Encrypt(pt))==pt with clean EOF, kit.Decrypt(refenc.Encrypt(pt))==pt, the wrap/unwrap argument monitor and the ErrDecryptionKeyMissing rule; in every odd-numbered case the key callbacks are busy: each call runs an independent small enc/v1 Encrypt/Decrypt round trip before answering (a key store that protects its own records with the scheme), which must neither fail nor disturb the outer stream; in every third case the callbacks answer from CALLBACK-OWNED MEMORY (unwrap returns the same slice of a guarded key table for a given key name and wrapped key - later decryptions of the case get that very slice again -, wrap returns a slice of a long-lived buffer) and after every Encrypt/Decrypt that memory, its guard bytes, neighbouring keys and spare capacity must be unchanged; the argument slices kit passes to the callbacks are looked at again afterwards (counted, not judged). distinct = distinct dimension vectors; non-trivial = every case (a real encryption and three real decryptions); case 0 additionally decrypts kit's seven testdata files with refenc. Every case with at least 2 plaintext bytes is followed by an overlapped round trip: kit's ciphertext is opened with Decrypt and read to k bytes (k in {1,10,65535,65546}, or half the plaintext), then a complete Decrypt of the reference ciphertext and a complete Encrypt (checked by refenc) run, then the rest is read; all three must be exact. "+
 		"Long key names (after the huge cases): KeyName or DecryptionKeyName sized so that the three-line header is exactly N bytes for every N in 65534..65556 (every off-by-one around 65536 and 65552), and ordinary 10 KiB / 60 KiB names, x both ciphers x {A256KW, A128CBC-NOPAD, RSA-OAEP-256} (all seven in thorough), some with a long decrypt override; EITHER Encrypt refuses (counted per side of 65536) OR the document passes the structural monitor and is decrypted by refenc and by kit (seeded reader styles) to the plaintext; the published format sets no header limit and refenc imposes none. "+
 		"Huge cases (after the ordinary ones, each run by one child): a generated plaintext of 4 GiB + 64 KiB + 100 bytes = 65538 segments (every segment differs) is streamed through kit.Encrypt and decrypted by refenc's streaming reader (quick: AES-GCM; thorough: both ciphers and also refenc's streaming Encrypt -> kit.Decrypt), "+
 		"compared position by position with the generator, plus total length, segment count and ciphertext length; this is the only place where segment numbers >= 65536 (the upper half of the nonce's 32-bit counter) occur.")
 	rec.Note("require", []string{"callback.inner_round_trips", "struct.ok", "ref_decrypts_kit.ok", "kit_decrypts_ref.ok", "roundtrip.ok", "key_missing.ok", "testdata.files_decrypted_by_refenc",
 		"src.zero_length_reads", "src.eof_with_last_data", "src.pipe_sources", "length.len=0", "length.len=k*64K", "length.len=k*64K+1", "length.len=k*64K-1",
-		"overlap.ok", "bigname.roundtrip_ok", "bigname.roundtrip_ok.header-le-65536", "bigname.roundtrip_ok.ordinary-long-name", "bigname.encrypt_accepted.header-le-65536", "huge.kit-to-ref.ok", "huge.segments_beyond_65535_authenticated", "alg.AES", "alg.RSA", "alg.A128CBC-NOPAD", "alg.A192CBC-NOPAD", "alg.A256CBC-NOPAD", "alg.A256KW", "alg.RSA-OAEP-256"})
+		"overlap.ok", "callback.owned.cases", "callback.owned.memory_verified_intact", "callback.owned.unwrap_answered_from_the_same_slice", "bigname.roundtrip_ok", "bigname.roundtrip_ok.header-le-65536", "bigname.roundtrip_ok.ordinary-long-name", "bigname.encrypt_accepted.header-le-65536", "huge.kit-to-ref.ok", "huge.segments_beyond_65535_authenticated", "alg.AES", "alg.RSA", "alg.A128CBC-NOPAD", "alg.A192CBC-NOPAD", "alg.A256CBC-NOPAD", "alg.A256KW", "alg.RSA-OAEP-256"})
 	rec.Note("plan", map[string]int{"covering_array_rows": nPairwise, "full_product_rows": nProduct, "total": len(specs)})
 	// the huge cases come after the ordinary ones; each is run by exactly one child
 	for i, h := range hugePlan() {
